@@ -130,10 +130,10 @@ func checkDivZero(c *core.Ctx, rule string) {
 
 func isZeroBig(v ssa.Value) bool {
 	call, ok := core.Unwrap(v).(*ssa.Call)
-	if !ok || core.CalleeName(&call.Call) != "math/big.NewInt" {
+	if !ok || core.CalleeName(core.NormCall(&call.Call)) != "math/big.NewInt" {
 		return false
 	}
-	k, ok := core.ConstInt(call.Call.Args[0])
+	k, ok := core.ConstInt(core.NormCall(&call.Call).Args[0])
 	return ok && k == 0
 }
 
@@ -157,15 +157,15 @@ func storedField(fn *ssa.Function, i int) string {
 				}
 			case *ssa.Call:
 				// recv.F.Set(p)
-				if core.CalleeName(&x.Call) == "(*math/big.Int).Set" && len(x.Call.Args) == 2 && core.Unwrap(x.Call.Args[1]) == ssa.Value(p) {
-					if ld, ok := core.Unwrap(x.Call.Args[0]).(*ssa.UnOp); ok {
+				if core.CalleeName(core.NormCall(&x.Call)) == "(*math/big.Int).Set" && len(core.NormCall(&x.Call).Args) == 2 && core.Unwrap(core.NormCall(&x.Call).Args[1]) == ssa.Value(p) {
+					if ld, ok := core.Unwrap(core.NormCall(&x.Call).Args[0]).(*ssa.UnOp); ok {
 						if fa, ok := ld.X.(*ssa.FieldAddr); ok && core.Unwrap(fa.X) == ssa.Value(recv) {
 							return fieldNameOf(fa)
 						}
 					}
 				}
-				if sc := x.Call.StaticCallee(); sc != nil && sc != fn && sc.Signature.Recv() != nil && len(x.Call.Args) > 0 && core.Unwrap(x.Call.Args[0]) == ssa.Value(recv) {
-					for j, a := range x.Call.Args {
+				if sc := x.Call.StaticCallee(); sc != nil && sc != fn && sc.Signature.Recv() != nil && len(core.NormCall(&x.Call).Args) > 0 && core.Unwrap(core.NormCall(&x.Call).Args[0]) == ssa.Value(recv) {
+					for j, a := range core.NormCall(&x.Call).Args {
 						if j > 0 && core.Unwrap(a) == ssa.Value(p) {
 							if f := storedField(sc, j); f != "" {
 								return f
@@ -194,14 +194,14 @@ func excludesZero(g core.Gate, divisor *ssa.Call) bool {
 	if !ok {
 		return false
 	}
-	name := core.CalleeName(&q.Call)
+	name := core.CalleeName(core.NormCall(&q.Call))
 	if name != "(*math/big.Int).Sign" && name != "(*math/big.Int).Cmp" {
 		return false
 	}
-	if len(q.Call.Args) == 0 || !sameAccessorCall(q.Call.Args[0], divisor) {
+	if len(core.NormCall(&q.Call).Args) == 0 || !sameAccessorCall(core.NormCall(&q.Call).Args[0], divisor) {
 		return false
 	}
-	if name == "(*math/big.Int).Cmp" && !(len(q.Call.Args) == 2 && isZeroBig(q.Call.Args[1])) {
+	if name == "(*math/big.Int).Cmp" && !(len(core.NormCall(&q.Call).Args) == 2 && isZeroBig(core.NormCall(&q.Call).Args[1])) {
 		return false
 	}
 	// which of -1, 0, +1 pass the gate
@@ -236,5 +236,5 @@ func sameAccessorCall(v ssa.Value, call *ssa.Call) bool {
 	if !ok || o.Call.StaticCallee() == nil || o.Call.StaticCallee() != call.Call.StaticCallee() {
 		return false
 	}
-	return len(o.Call.Args) > 0 && len(call.Call.Args) > 0 && core.Unwrap(o.Call.Args[0]) == core.Unwrap(call.Call.Args[0])
+	return len(core.NormCall(&o.Call).Args) > 0 && len(core.NormCall(&call.Call).Args) > 0 && core.Unwrap(core.NormCall(&o.Call).Args[0]) == core.Unwrap(core.NormCall(&call.Call).Args[0])
 }
